@@ -329,4 +329,147 @@ Section Ref.
         eapply IH; [exact H' | | exact P]. rewrite <- (worker_done_add_done a s G1 G2 G3). apply RI_event; assumption.
       + destruct t; [|discriminate]. inversion P; subst. cbn. rewrite acc_evs_nil. exact R.
   Qed.
+
+  Ltac des S := repeat (dm S; try discriminate S).
+
+  Ltac pcsolve HP :=
+    unfold PcSc in *; cbn in *;
+    repeat match goal with E : pc _ = _ |- _ => rewrite E in HP; clear E end; cbn in *;
+    first [ exact HP | reflexivity | exact I | congruence | (destruct HP; reflexivity) | idtac ].
+
+  Lemma step_PcSc : forall st l st', PcSc st -> step c st l = Some st' -> PcSc st'.
+  Proof.
+    intros st l st' HP S. destruct l; cbn in S.
+    - des S; inv_some S; pcsolve HP.
+    - des S; inv_some S; pcsolve HP.
+    - des S; inv_some S; pcsolve HP.
+    - des S; inv_some S; pcsolve HP.
+    - des S; inv_some S; pcsolve HP.
+    - des S; inv_some S; pcsolve HP.
+    - des S; inv_some S; pcsolve HP.
+    - destruct (pc st) eqn:Epc; try discriminate S. destruct (nth_error p i) as [s|]; [|discriminate S].
+      destruct (negb (is_fin s (o st)) && negb (cur_running s (o st)) && can_run s (o st)); [|discriminate S].
+      destruct ok; [unfold submit in S; des S|]; inv_some S; unfold PcSc; cbn; auto.
+    - des S; inv_some S; pcsolve HP.
+    - des S; inv_some S; pcsolve HP.
+    - des S; inv_some S; pcsolve HP.
+    - des S; inv_some S; pcsolve HP; destruct ok; cbn; auto.
+    - des S; inv_some S; pcsolve HP.
+    - des S; inv_some S; pcsolve HP.
+    - des S; inv_some S; pcsolve HP.
+    - des S; inv_some S; pcsolve HP.
+    - des S; inv_some S; pcsolve HP.
+    - des S; inv_some S; pcsolve HP.
+    - des S; inv_some S; pcsolve HP.
+    - des S; inv_some S; pcsolve HP.
+    - des S; inv_some S; pcsolve HP.
+    - des S; inv_some S; pcsolve HP.
+  Qed.
+
+  Lemma proj_step_noev : forall st l acc, evs_of c st l = [] -> l <> OEndScan -> proj_step c st l acc = acc.
+  Proof.
+    intros st l [es late] E Hl. unfold proj_step. rewrite E. cbn. rewrite !app_nil_r. destruct l; try reflexivity. congruence.
+  Qed.
+  Lemma proj_step_evs : forall st l acc, l <> OEndScan -> proj_step c st l acc = acc_evs (sc st) acc (evs_of c st l).
+  Proof. intros st l [es late] Hl. unfold proj_step, acc_evs. destruct l; try reflexivity. congruence. Qed.
+  Lemma acc_evs_single : forall i acc e, acc_evs i acc [e] = acc1 i acc e.
+  Proof. intros. rewrite acc_evs_cons, acc_evs_nil. reflexivity. Qed.
+
+  Lemma step_RI : forall st l st' acc, SInv c st -> PcSc st -> RI (o st) (sc st) acc -> step c st l = Some st' ->
+    RI (o st') (sc st') (proj_step c st l acc).
+  Proof.
+    intros st l st' acc H HP R S. unfold SInv in H. destruct l; cbn in S.
+    - (* OHead *)
+      rewrite proj_step_noev; [|reflexivity|discriminate].
+      destruct (pc st) eqn:Epc; try discriminate S. unfold PcSc in HP. rewrite Epc in HP.
+      destruct (head_src p (o st)) eqn:Eh; inv_some S; cbn; try exact R.
+      rewrite HP in R. destruct R as [[Rl Ro] L]. split; [|rewrite Rl; intros y b []]. split.
+      + rewrite <- (oeq_loop_head p _ _ Ro). rewrite <- (head_src_loop_head_inv c Hp _ _ _ _ H). exact Eh.
+      + rewrite Rl. cbn. exact Ro.
+    - (* OVisit *)
+      rewrite proj_step_noev; [|reflexivity|discriminate]. unfold PcSc in HP.
+      destruct (pc st) eqn:Epc; try discriminate S; destruct (nth_error p i) as [s|] eqn:En; try discriminate S;
+        des S; inv_some S; cbn; rewrite HP in R; apply RI_visit; assumption.
+    - (* OPoll *)
+      rewrite proj_step_evs; [|discriminate]. cbn [evs_of]. change (flat_map _ taken) with (poll_evs taken).
+      des S; inv_some S; cbn; eapply RI_poll; eauto.
+    - (* OCollect *)
+      rewrite proj_step_noev; [|reflexivity|discriminate]. unfold PcSc in HP.
+      destruct (pc st) eqn:Epc; try discriminate S. destruct (nth_error p i) as [s|] eqn:En; [|discriminate S]. rewrite HP in R.
+      des S; inv_some S; cbn; try (apply RI_visit; assumption). rewrite HP. exact R.
+    - (* ORequeue *) rewrite proj_step_noev; [|reflexivity|discriminate]. des S; inv_some S; exact R.
+    - (* OGot *) rewrite proj_step_noev; [|reflexivity|discriminate]. des S; inv_some S; exact R.
+    - (* OTimeout *) rewrite proj_step_noev; [|reflexivity|discriminate]. des S; inv_some S; exact R.
+    - (* OExec *)
+      rewrite proj_step_noev; [|reflexivity|discriminate]. unfold PcSc in HP.
+      destruct (pc st) eqn:Epc; try discriminate S. destruct (nth_error p i) as [s|] eqn:En; [|discriminate S]. rewrite HP in R.
+      destruct (negb (is_fin s (o st)) && negb (cur_running s (o st)) && can_run s (o st)); [|discriminate S].
+      destruct ok; [unfold submit in S; des S|]; inv_some S; cbn; apply RI_visit; assumption.
+    - (* OEndScan *)
+      unfold PcSc in HP. destruct (pc st) eqn:Epc; try discriminate S. destruct (nth_error p i) eqn:En; [discriminate S|]. rewrite HP in R.
+      pose proof (RI_endscan _ _ _ R En) as R'. destruct acc as [es late]. unfold proj_step. cbn [fst snd] in R'.
+      destruct (cstream c); inv_some S; cbn; exact R'.
+    - (* OResume *) rewrite proj_step_noev; [|reflexivity|discriminate]. des S; inv_some S; exact R.
+    - (* OAbandon *) rewrite proj_step_noev; [|reflexivity|discriminate]. des S; inv_some S; exact R.
+    - (* OArtifacts *) rewrite proj_step_noev; [|reflexivity|discriminate]. des S; inv_some S; exact R.
+    - (* OTerminate *) rewrite proj_step_noev; [|reflexivity|discriminate]. des S; inv_some S; exact R.
+    - (* OJoin *) rewrite proj_step_noev; [|reflexivity|discriminate]. des S; inv_some S; exact R.
+    - (* OClose *) rewrite proj_step_noev; [|reflexivity|discriminate]. des S; inv_some S; exact R.
+    - (* ODropAll *) rewrite proj_step_noev; [|reflexivity|discriminate]. des S; inv_some S; exact R.
+    - (* WTake *) rewrite proj_step_noev; [|reflexivity|discriminate]. des S; inv_some S; exact R.
+    - (* WUpload *) rewrite proj_step_noev; [|reflexivity|discriminate]. des S; inv_some S; exact R.
+    - (* WDone *)
+      destruct (phase (ws st w)) eqn:Eph; try discriminate S. destruct (wfail c s); [discriminate S|].
+      assert (Hpe : In s (pend (ws st w))) by (unfold pend; rewrite Eph; left; reflexivity).
+      destruct (Inv_pend_fresh c _ _ _ _ H w s Hpe) as (G1 & G2 & G3).
+      destruct (mp c) eqn:Em; inv_some S; cbn.
+      + rewrite proj_step_noev; [exact R | cbn; rewrite Em; reflexivity | discriminate].
+      + rewrite proj_step_evs; [|discriminate]. cbn [evs_of]. rewrite Em, Eph, acc_evs_single.
+        rewrite <- (worker_done_add_done _ s G1 G2 G3). apply RI_event; assumption.
+    - (* WFail *)
+      destruct (phase (ws st w)) eqn:Eph; try discriminate S. destruct (wfail c s); [|discriminate S].
+      destruct (crashpt_eqb c0 c1); [|discriminate S]. inv_some S. cbn.
+      assert (Hpe : In s (pend (ws st w))) by (unfold pend; rewrite Eph; left; reflexivity).
+      destruct (Inv_pend_fresh c _ _ _ _ H w s Hpe) as (G1 & G2 & G3).
+      rewrite proj_step_evs; [|discriminate]. cbn [evs_of]. rewrite Eph, acc_evs_single.
+      rewrite <- (worker_done_add_failed _ s G1 G2 G3). apply RI_event; assumption.
+    - (* WDropAck *) rewrite proj_step_noev; [|reflexivity|discriminate]. des S; inv_some S; exact R.
+    - (* WDropCrash *) rewrite proj_step_noev; [|reflexivity|discriminate]. des S; inv_some S; exact R.
+  Qed.
+
+  Lemma G_init : G pinit ([], []).
+  Proof.
+    split; [unfold SInv, pinit; cbn; apply Inv_init|]. split; [reflexivity|]. unfold RI, pinit; cbn.
+    split; [split; [reflexivity | apply oeq_refl] | intros y b []].
+  Qed.
+
+  Lemma exec_G : forall tr st0 acc0 st, G st0 acc0 -> exec c st0 tr = Some st -> G st (proj c st0 tr acc0).
+  Proof.
+    induction tr as [|l tr IH]; intros st0 acc0 st H0 E; cbn in *; [inversion E; subst; exact H0|].
+    destruct (step c st0 l) as [st1|] eqn:S; [|discriminate]. apply IH; [|exact E].
+    destruct H0 as (H & HP & R). split; [eapply step_SInv; eauto|]. split; [eapply step_PcSc; eauto | eapply step_RI; eauto].
+  Qed.
+
+  (* (3) refinement *)
+  Lemma refinement_l : forall tr st, exec c pinit tr = Some st -> refines c st (proj c pinit tr ([], [])).
+  Proof.
+    intros tr st E. destruct (exec_G tr pinit ([], []) st G_init E) as (_ & _ & [R _]).
+    unfold refines. unfold RI in R. destruct (sc st); exact R.
+  Qed.
+
+  (* the outcome of a run that leaves the loop at its head is the loop-head status of the projected Orch.v run *)
+  Lemma refinement_outcome_l : forall tr st x s, exec c pinit tr = Some st -> xk (pc st) = Some x -> status_of x = Some s ->
+    sc st = None /\ oeq (o st) (runp (fst (proj c pinit tr ([], [])))) /\ loop_head p (runp (fst (proj c pinit tr ([], [])))) = s.
+  Proof.
+    intros tr st x s E Ex Es. destruct (exec_G tr pinit ([], []) st G_init E) as (H & HP & [R _]).
+    assert (R0 : reach c st) by (exists tr; exact E).
+    pose proof (reach_XInv c Hp st R0) as [X1 X2].
+    assert (Esc : sc st = None).
+    { unfold PcSc in HP. destruct (pc st); cbn in Ex; try discriminate Ex; inversion Ex; subst x; destruct x0; cbn in Es; try discriminate Es; exact HP. }
+    rewrite Esc in R. destruct R as [_ Ro]. split; [exact Esc|]. split; [exact Ro|].
+    rewrite <- (oeq_loop_head p _ _ Ro). unfold loop_head. destruct x; cbn in Es; inversion Es; subst s.
+    - destruct (X1 Ex) as (Ef & Hfin & Hall). rewrite Ef. destruct (finished (o st)) eqn:Efin; [congruence|].
+      apply subset_incl in Hall. rewrite Hall. reflexivity.
+    - pose proof (X2 Ex) as Hf. destruct (failed (o st)); [congruence | reflexivity].
+  Qed.
 End Ref.
